@@ -466,20 +466,32 @@ theorem C05_steps_readTokenSeparator (s : IS) :
 
 /-! ## the instance loop of pass 1 (`STEPfile::ReadData1`): termination, linear steps, cut-off, resynchronisation
 
-`_partial`: files without `&SCOPE` (the `CreateScopeInstances` branch is not modelled); the reader of an external mapping's parts (`CreateSubSuperInstance`) is any function that
-never un-reads (`hsub`); what the dictionary and the instance manager answer is an arbitrary oracle. -/
+`_partial`: files without `&SCOPE` (the `CreateScopeInstances` branch is not modelled); what the dictionary and the instance manager answer is an arbitrary oracle. -/
 
-/-- For every byte string, oracle, part reader, and for exchange as well as working-session files (state letters
-`C I N D`, deleted instances skipped): `ReadData1` ends (fuel `|bytes| + 2`), never un-reads, makes at most
-`51·(|bytes| + 1) + readCommentIters + 20` steps over all nesting levels (instance loop, resynchronisation loop,
-`CreateInstance` skeleton, token separators, comments, `SkipInstance`, `FindStartOfInstance`, string literals), never
-counts more than `_maxErrorCount + 1` instances it could not create, and aborts exactly when it has counted that many. -/
-theorem C05_readData1_partial (o : Oracle) (sub : IS → IS) (hsub : ∀ s, (sub s).m ≤ s.m) (wsMode : Bool) (s : IS) :
-    ∃ r, readData1 o sub C05.skipInstanceSkipsComments wsMode C05.readCommentIters C05.maxErrorCount (s.rest.length + 2) s = .ok r ∧
+/-- `CreateSubSuperInstance` with all its inner loops (part loop with the regenerated cap on the number of names, garbage
+loop, `SkipSimpleRecord`, `PushPastImbedAggr`, `PushPastString`): for every byte string it ends with fuel `|bytes| + 2`,
+never un-reads and makes at most `4·(|bytes| + 1) + readCommentIters + 3` steps -/
+theorem C05_steps_createSubSuper (s : IS) :
+    ∃ r, createSubSuper C05.entNmArrGuard (s.rest.length + 2) s = .ok r ∧ r.s.m ≤ s.m ∧
+      r.steps ≤ 4 * (s.rest.length + 1) + C05.readCommentIters + 3 := by
+  have hm := IS.m_le s
+  obtain ⟨r, a, b, c⟩ := createSubSuper_ok C05.readCommentIters C05.entNmArrGuard (s.rest.length + 2) (by omega) s (by omega)
+  have := pot_le (R := C05.readCommentIters) s
+  exact ⟨r, a, b, by omega⟩
+
+/-- For every byte string and every oracle, for exchange as well as working-session files (state letters `C I N D`,
+deleted instances skipped): `ReadData1` — with the concrete `CreateSubSuperInstance` — ends (fuel `|bytes| + 2`), never
+un-reads, makes at most `54·(|bytes| + 1) + readCommentIters + 23` steps over all nesting levels (instance loop,
+resynchronisation loop, `CreateInstance` skeleton, external-mapping part loop, `SkipSimpleRecord`, `PushPastImbedAggr`,
+token separators, comments, `SkipInstance`, `FindStartOfInstance`, string literals), never counts more than
+`_maxErrorCount + 1` instances it could not create, and aborts exactly when it has counted that many. -/
+theorem C05_readData1_partial (o : Oracle) (wsMode : Bool) (s : IS) :
+    ∃ r, readData1 o C05.entNmArrGuard C05.skipInstanceSkipsComments wsMode C05.readCommentIters C05.maxErrorCount
+        (s.rest.length + 2) s = .ok r ∧
       r.s.m ≤ s.m ∧
-      r.steps ≤ 51 * (s.rest.length + 1) + C05.readCommentIters + 20 ∧
+      r.steps ≤ 54 * (s.rest.length + 1) + C05.readCommentIters + 23 ∧
       r.notCreated ≤ C05.maxErrorCount + 1 ∧ (r.aborted = true ↔ r.notCreated = C05.maxErrorCount + 1) :=
-  readData1_ok o sub hsub _ wsMode _ _ s
+  readData1_ok o _ _ wsMode _ _ s
 
 /-- Pass 2 (`ReadData2`) is the same loop around `ReadInstance`.  For **every** per-instance reader `ri` that is a stage
 — it returns, never un-reads, and its steps are paid by what it consumes up to a constant `K` (the attribute readers
